@@ -74,8 +74,17 @@ def c16_1(c: Ctx) -> None:
                    'cancellation (an await in `finally`, a swallowed CancelledError) keeps stop() blocked without bound (asyncio.wait({task}, timeout) returns at the deadline)', node=a)
         elif isinstance(v, ast.Call) and U(v.func) in ('asyncio.wait', 'asyncio.wait_for'):
             to = q.kw(v, 'timeout')
+            const_attr = None
+            if isinstance(to, ast.Attribute) and isinstance(to.value, ast.Name) and to.value.id == u.params()[0]:
+                # a class-level numeric constant that nothing assigns
+                ci = c.prog.cls('EventBus')
+                vals = [st_.value for st_ in ci.node.body if isinstance(st_, (ast.Assign, ast.AnnAssign)) and st_.value is not None and U(st_.targets[0] if isinstance(st_, ast.Assign) else st_.target) == to.attr]
+                if len(vals) == 1 and isinstance(vals[0], ast.Constant) and isinstance(vals[0].value, (int, float)) and not isinstance(vals[0].value, bool) and not c.cg.all_writes(to.attr):
+                    const_attr = vals[0].value
             if isinstance(to, ast.Constant) and isinstance(to.value, (int, float)):
                 c.ok(where(u, a), f'awaits {U(v.func)}(.., timeout={to.value})')
+            elif const_attr is not None:
+                c.ok(where(u, a), f'awaits {U(v.func)}(.., timeout={U(to)} = {const_attr}, a class constant nothing assigns)')
             else:
                 c.fail(u, f'{U(v)[:70]} without a constant timeout', 'stop() can block on the run-loop task', node=a)
         elif isinstance(v, ast.Call) and U(v.func) == 'asyncio.sleep' and v.args and isinstance(v.args[0], ast.Constant):
@@ -119,7 +128,22 @@ def c16_2(c: Ctx) -> None:
         else:
             c.fail(u, 'wait on the run-loop task reachable without event_queue.shutdown()', 'the run loop stays blocked in queue.get() while stop() waits', node=wn.ast)
         implicit = any(call_name(x) == 'wait_for' for x in q.node_calls(wn))  # wait_for cancels the awaited task itself at the deadline (C16.1 judges its boundedness)
-        p = None if implicit else q.pair_search(g, wn, lambda n: n in cancels, exc_ok=lambda e: False)
+        # a wait that comes after the cancellation was requested (a grace period for the task to unwind) needs no further cancel
+        already = bool(cancels) and search([(g.entry, ())], is_target=lambda n, d: n is wn, is_barrier=lambda n, d: n in cancels) is None
+        if already:
+            c.ok(where(u, wn.ast), 'this wait comes after the run-loop task was cancelled (grace period)')
+            continue
+
+        def done_skip(n, e) -> bool:
+            # `if not T.done(): T.cancel()`: a task that has finished needs no cancel
+            if n.kind != 'if':
+                return False
+            t_ = U(n.ast.test)
+            return (e.label == 'false' and t_ in {f'not {x}.done()' for x in task_names} | {f'not {self_}.{x}.done()' for x in task_names}) or \
+                   (e.label == 'true' and t_ in {f'{x}.done()' for x in task_names} | {f'{self_}.{x}.done()' for x in task_names})
+
+        p = None if implicit else search([(e_.dst, ()) for e_ in wn.succ if not e_.is_exc and e_.dst not in cancels], is_target=lambda n, d: n.kind in ('exit', 'raise_exit'), is_barrier=lambda n, d: n in cancels,
+                                         edge_ok=lambda n, e, d: None if (e.is_exc or done_skip(n, e)) else d)
         if p is None and (cancels or implicit):
             c.ok(where(u, wn.ast), 'the run-loop task is cancelled after the bounded wait on every path')
         else:
@@ -236,9 +260,12 @@ def runloop_cancel_guard(c: Ctx) -> tuple[bool, list[str]]:
     # the same between any two steps: an inner loop that keeps stepping (a "drain the backlog" fast path) must re-check too, otherwise a cancellation absorbed inside a
     # step is lost for as long as the backlog lasts
     step_nodes = [n for n in g.live_nodes() if n.ast is not None and n.kind in ('stmt', 'return', 'if', 'while') and any(call_name(x) == 'step' for x in q.node_calls(n))]
+    # (guards spelled through a flag are edges out of an `if` over the flag, recognised above as the assignment that computes it: on the way from that assignment back to a step
+    #  the search passes the assignment node, which is in `gid`)
     sid = {n.id for n in step_nodes}
     for sn in step_nodes:
-        succ0 = [(e.dst, ()) for e in sn.succ]
+        # (start from what is known when the step is reached: flags a folded helper initialises before it)
+        succ0 = [(e.dst, tuple(sorted(fl.transfer(sn, dict(env0)).items()))) for env0 in (q.envs_at(g, sn, fl) or [{}]) for e in sn.succ]
         p2 = search(succ0, is_target=lambda n, d: n.id in sid, is_barrier=lambda n, d: n.id in gid, edge_ok=lambda n, e, d: fl.edge_ok(n, e, d), transfer=fl.transfer) if succ0 else None
         if p2 is not None:
             return False, ['step() can be called again without re-checking current_task().cancelling() in between (an inner loop around step())'] + fmt_path(sn, p2)
